@@ -248,6 +248,22 @@ func c14Sequential(r *simrt.Run, w *nomsim.World, wl *nomsim.Workload) {
 		}
 		comparePool(r, n, m, users, what+" on "+n.Name)
 	}
+	// contract accounts are part of the comparison too: their receive blocks (with descendant
+	// batches) are pooled by the producer's pillar and gossiped
+	contracts := append([]types.Address(nil), types.EmbeddedContracts...)
+	for _, m := range []*poolModel{mx, my} {
+		for _, a := range contracts {
+			m.head[a] = p.Chain.GetFrontierMomentumStore().GetAccountStore(a).Identifier()
+		}
+	}
+	all := append(append([]types.Address(nil), users...), contracts...)
+	var pillarBlocks []*nom.AccountBlock
+	p.OnBlock = func(_ *simnode.Node, b *nom.AccountBlock) {
+		if types.IsEmbeddedAddress(b.Address) {
+			pillarBlocks = append(pillarBlocks, b)
+		}
+	}
+	gn := nomsim.NewGen(w)
 	steps := 10 + t.Choose(40)
 	ops := 0
 	for s := 0; s < steps; s++ {
@@ -329,7 +345,22 @@ func c14Sequential(r *simrt.Run, w *nomsim.World, wl *nomsim.Workload) {
 						}
 					}
 				}
+				// contract calls whose receives carry descendant batches (payouts, refunds with value)
+				if t.Bool() {
+					for i := 0; i < 1+t.Choose(3); i++ {
+						nomsim.FlowByName([]string{"cancel-fuse", "fuse", "donate", "stake", "issue-token", "register-pillar"}[t.Choose(6)]).Run(gn, p)
+					}
+				}
+				// sometimes the producer loses its pool (restart) right before producing: the receives
+				// it had gossiped stay pooled on the other nodes across a momentum that lacks them
+				if t.Choose(4) == 0 {
+					r.Fault("producer-restart-before-slot")
+					if err := p.Restart(false); err != nil {
+						r.Fail("restart", "open", "%v", err)
+					}
+				}
 				h0 := p.Height()
+				pillarBlocks = nil
 				w.StepSlot()
 				for h := h0 + 1; h <= p.Height(); h++ {
 					d := p.Detailed(h)
@@ -338,12 +369,38 @@ func c14Sequential(r *simrt.Run, w *nomsim.World, wl *nomsim.Workload) {
 							r.Fail("honest-momentum-refused", "sequential", "node %s: idx=%d err=%v", n.Name, idx, err)
 						}
 					}
-					mx.confirm(d)
-					my.confirm(d)
-					comparePool(r, x, mx, users, "momentum on X")
-					comparePool(r, y, my, users, "momentum on Y")
+					// blocks of the momentum that the nodes did not hold were force-added: same in the model
+					for _, m := range []*poolModel{mx, my} {
+						for _, b := range d.AccountBlocks {
+							if b.BlockType != nom.BlockTypeContractSend {
+								m.add(b, true)
+							}
+						}
+						m.confirm(d)
+					}
+					comparePool(r, x, mx, all, "momentum on X")
+					comparePool(r, y, my, all, "momentum on Y")
 					r.Probe("momentum-with-pooled-blocks")
 				}
+				// the pillar's receives (acknowledging the new momentum) are gossiped to both nodes
+				for _, b := range pillarBlocks {
+					if b.BlockType == nom.BlockTypeContractSend {
+						continue
+					}
+					for i, n := range []*simnode.Node{x, y} {
+						m := []*poolModel{mx, my}[i]
+						err := n.Bridge.AddAccountBlocks([]*nom.AccountBlock{nomsim.CloneBlock(b)})
+						changed, refused := m.add(b, false)
+						if (err != nil) != refused {
+							r.Fail("pool-decision-differs", "contract-receive", "node %s: gossiped contract receive %v/%d: err=%v, reference refused=%v changed=%v", n.Name, b.Address, b.Height, err, refused, changed)
+						}
+						if len(b.DescendantBlocks) > 0 {
+							r.Probe("batched-receive-pooled")
+						}
+					}
+				}
+				comparePool(r, x, mx, all, "contract-receives on X")
+				comparePool(r, y, my, all, "contract-receives on Y")
 			}
 		})
 	}
